@@ -122,6 +122,17 @@ func genKernel(r *hx.Rng) kcase {
 		cols = 1
 	}
 	nc := r.Range(1, cols)
+	if cols == 2 && r.Chance(1, 3) {
+		// exact prefix + IS [NOT] NULL on the last index column
+		v := hx.Pick(r, []int{0, 1, 2, 2, 3})
+		k.Range = append(k.Range, [2]cut{{Kind: "b", K: v}, {Kind: "a", K: v}})
+		if r.Bool() {
+			k.Range = append(k.Range, [2]cut{{Kind: "bn"}, {Kind: "an"}})
+		} else {
+			k.Range = append(k.Range, [2]cut{{Kind: "an"}, {Kind: "aa"}})
+		}
+		return k
+	}
 	for i := 0; i < nc; i++ {
 		var ce [2]cut
 		switch r.Intn(6) {
